@@ -65,7 +65,32 @@ func (e *Enc) instr(fr *Frame, st *State, instr ssa.Instruction) {
 			e.setVal(fr, x, r)
 		}
 	case *ssa.Go:
-		e.note("go statement ignored (effects of the goroutine are not modelled): %s", e.w.posOf(x.Pos()))
+		if e.forkjoin && len(e.inlineStack) == 0 {
+			// fork-join discipline (contract flag `forkjoin`): the function waits for the goroutines it
+			// starts before it returns, so the goroutine's body is executed here -- provided it
+			// captures no variable that is assigned again while it may still be running
+			if mc, ok := x.Call.Value.(*ssa.MakeClosure); ok {
+				for _, b := range mc.Bindings {
+					if al, ok := b.(*ssa.Alloc); ok {
+						if pos, racy := storeReachableAfter(x, al); racy {
+							e.oblige(st, "race", "false", fmt.Sprintf("variable %s captured by the goroutine started at %s is assigned again at %s while the goroutine may still be running", al.Comment, e.w.posOf(x.Pos()), e.w.posOf(pos)), e.props)
+						}
+					}
+				}
+			}
+			e.note("go statement at %s executed in place (fork-join: the function joins its goroutines before returning; interleavings with the rest of the body are not explored)", e.w.posOf(x.Pos()))
+			var args []*Val
+			for _, a := range x.Call.Args {
+				args = append(args, e.val(fr, st, a))
+			}
+			var fnv *Val
+			if _, isB := x.Call.Value.(*ssa.Builtin); !isB {
+				fnv = e.val(fr, st, x.Call.Value)
+			}
+			e.callCommon(fr, st, &x.Call, args, fnv, x)
+		} else {
+			e.note("go statement ignored (effects of the goroutine are not modelled): %s", e.w.posOf(x.Pos()))
+		}
 	case *ssa.Defer:
 		d := &deferred{instr: x}
 		for _, a := range x.Call.Args {
@@ -698,4 +723,56 @@ func bitwiseSmall(rt types.Type, op token.Token, x, y string) (string, bool) {
 		terms = append(terms, fmt.Sprintf("(ite %s %s 0)", c, pow2(k)))
 	}
 	return "(+ " + strings.Join(terms, " ") + ")", true
+}
+
+// storeReachableAfter: is there a store to the cell `al` on some path from the go statement to the
+// function's exit that does not re-execute the allocation of the cell (which would make it a new
+// cell)? Returns the position of such a store.
+func storeReachableAfter(g *ssa.Go, al *ssa.Alloc) (token.Pos, bool) {
+	// scan returns (found position, stop): stop when the alloc itself is re-executed
+	scan := func(instrs []ssa.Instruction) (token.Pos, bool, bool) {
+		for _, in := range instrs {
+			if in == ssa.Instruction(al) {
+				return token.NoPos, false, true
+			}
+			if s, ok := in.(*ssa.Store); ok && s.Addr == ssa.Value(al) {
+				return s.Pos(), true, false
+			}
+		}
+		return token.NoPos, false, false
+	}
+	blk := g.Block()
+	idx := -1
+	for i, in := range blk.Instrs {
+		if in == ssa.Instruction(g) {
+			idx = i
+		}
+	}
+	if idx < 0 {
+		return token.NoPos, false
+	}
+	if p, found, stop := scan(blk.Instrs[idx+1:]); found {
+		return p, true
+	} else if stop {
+		return token.NoPos, false
+	}
+	seen := map[*ssa.BasicBlock]bool{}
+	work := append([]*ssa.BasicBlock(nil), blk.Succs...)
+	for len(work) > 0 {
+		b := work[0]
+		work = work[1:]
+		if seen[b] {
+			continue
+		}
+		seen[b] = true
+		p, found, stop := scan(b.Instrs)
+		if found {
+			return p, true
+		}
+		if stop {
+			continue
+		}
+		work = append(work, b.Succs...)
+	}
+	return token.NoPos, false
 }
